@@ -552,6 +552,30 @@ theorem build_retained {built seen : List Node} {ts : Tabs} (g : Good built seen
     obtain ⟨b', s', g', w', _, _⟩ := g.step op (r ++ .retain p a :: post) w
     exact ih g' w'
 
+theorem build_good {ops : List BOp} (w : wfOps [] [] ops = true) : ∃ built seen, Good built seen (build ops) :=
+  Good.init.run ops w
+
+theorem build_unique {ops : List BOp} (w : wfOps [] [] ops = true) {p : Node} {t t' : Tab}
+    (h : (p, t) ∈ build ops) (h' : (p, t') ∈ build ops) : t = t' := by
+  obtain ⟨_, _, g⟩ := build_good w
+  exact g.uniq p t t' h h'
+
+theorem build_bk {ops : List BOp} (w : wfOps [] [] ops = true) {p : Node} {t : Tab}
+    (h : (p, t) ∈ build ops) : TabBK t := by
+  obtain ⟨_, _, g⟩ := build_good w
+  exact g.bk p t h
+
+theorem build_holds_mem {ops : List BOp} (w : wfOps [] [] ops = true) {h : Holder} {refs : List (Node × Arg)}
+    (hm : BOp.attach h refs ∈ ops) {p : Node} {a : Arg} (hr : (p, a) ∈ refs) :
+    ∃ t, (p, t) ∈ build ops ∧ HoldsT t a h := by
+  obtain ⟨pre, post, rfl⟩ := List.append_of_mem hm
+  exact build_holds Good.init pre post h refs w hr
+
+theorem build_retained_mem {ops : List BOp} (w : wfOps [] [] ops = true) {p : Node} {a : Arg}
+    (hm : BOp.retain p a ∈ ops) : ∃ t, (p, t) ∈ build ops ∧ HoldsT t a none := by
+  obtain ⟨pre, post, rfl⟩ := List.append_of_mem hm
+  exact build_retained Good.init pre post p a w
+
 /-! ### where the construction steps come from in the node tree -/
 
 /-- the tree has a stage node `n` with the resolved inputs `ins` -/
@@ -628,5 +652,23 @@ theorem cloneFork_fileArgs (s : St) (d : List DiskEnt) : (cloneFork s d).fileArg
 theorem cloneFork_postNodes (s : St) (d : List DiskEnt) : (cloneFork s d).postNodes = s.postNodes := by
   unfold cloneFork
   simp
+
+theorem cloneFork_bk {s : St} (k : BK s) (d : List DiskEnt) : BK (cloneFork s d) := by
+  refine ⟨?_, ?_⟩
+  · rw [cloneFork_fileArgs, cloneFork_postNodes]; exact k.cons
+  · rw [cloneFork_fileArgs]; exact k.ne
+
+theorem cloneFork_holds (s : St) (d : List DiskEnt) (a : Arg) (h : Holder) :
+    Holds (cloneFork s d) a h ↔ Holds s a h := by
+  unfold Holds
+  rw [cloneFork_fileArgs]
+
+/-- a small pipestance: `TOP` (top level) calls `A`, then `B(x = A.o, n = A.n)`,
+returns `B.o`; stage `A` retains its output `r` -/
+def exTree : PTree :=
+  .pipe "TOP" true []
+    (.stage "A" [] [("A", "r")]
+      (.stage "B" [(.ref "A" "o", .prim true), (.ref "A" "n", .prim false)] [] .nil))
+    [(.map (.cons "o" (.ref "B" "o") .nil), .struct (.mcons "o" (.prim true) .mnil))] [] .nil
 
 end Martian.Vdr
